@@ -181,6 +181,12 @@ func Grid(opt GridOptions) []File {
 			{Name: "am", Type: Array(Map("string", Array(Named("One8"))))},
 			{Name: "tail", Type: Prim("uint16")},
 		}},
+		// a struct that is used before it is defined (tables filled in definition order see it too late)
+		&Record{Kind: Struct, Name: "FwdImage", Fields: []Field{{Name: "px", Type: Array(Named("FwdPixel"))}, {Name: "pm", Type: Map("uint8", Named("FwdPixel"))}}},
+		&Record{Kind: Struct, Name: "FwdPixels", Fields: []Field{{Name: "px", Type: Array(Named("FwdPixel"))}}},
+		&Record{Kind: Message, Name: "FwdMsg", Fields: []Field{{Name: "px", Index: 1, Type: Array(Named("FwdPixel"))}, {Name: "grid", Index: 2, Type: Array(Array(Named("FwdColor")))}}},
+		&Record{Kind: Struct, Name: "FwdPixel", Fields: []Field{{Name: "c", Type: Named("FwdColor")}}},
+		&Record{Kind: Struct, Name: "FwdColor", Fields: []Field{{Name: "r", Type: Prim("byte")}, {Name: "g", Type: Prim("byte")}, {Name: "b", Type: Prim("byte")}}},
 		// records whose last read is a string (the only place where a failure inside a string is not followed by another read)
 		&Record{Kind: Struct, Name: "EndsInStr", Fields: []Field{{Name: "a", Type: Prim("uint32")}, {Name: "s", Type: Prim("string")}}},
 		&Record{Kind: Struct, Name: "EndsInStrs", Fields: []Field{{Name: "a", Type: Prim("uint16")}, {Name: "ss", Type: Array(Prim("string"))}}},
